@@ -25,7 +25,8 @@ func (x *c16) cbor() *c16Format {
 	rt := x.r.Rule("C16.cbor.table", "cbor: the major-type table has exactly the keys 0..7 of the 3-bit major type, the initial byte is read as U3+U5, the table maps and dispatches the same field, the handler receives (shortCount, count) in that order", 12)
 	rc := x.r.Rule("C16.cbor.count", "cbor: additional information 24/25/26/27 reads an 8/16/32/64-bit count (only when major type != 7), 28..30 are fatal, smaller values are the count itself", 9)
 	rr := x.r.Rule("C16.cbor.row", "cbor: each major type's handler builds the value RFC 8949 says (uint = count, nint = -1-count, bytes/text of count bytes, count elements / key-value pairs through the dispatcher, tag + nested value, false/true/null and float16/32/64 by additional information)", 14)
-	ri := x.r.Rule("C16.cbor.indef", "cbor: indefinite-length items end only at the break byte (the element count never bounds the loop when shortCount is 31) and the break byte is consumed before the handler returns", 8)
+	ri := x.r.Rule("C16.cbor.indef", "cbor: indefinite-length items end only at the break byte (the element count never bounds the loop when shortCount is 31) and the break byte is consumed before the handler returns; byte/text strings take the chunked form exactly when shortCount (not count) is 31", 12)
+	rk := x.r.Rule("C16.cbor.chunks", "cbor: the chunks of an indefinite-length byte/text string are what the definite-length handler returns: the dispatcher returns the handler's result, the definite path returns the payload it read, every chunk of the right type is appended to the buffer the value field is built from", 5)
 
 	var mm *ssa.MakeMap
 	n := 0
@@ -118,6 +119,7 @@ func (x *c16) cbor() *c16Format {
 	}
 	rt.Check(c16Origin(dyn.Common().Args[1]) == ssa.Value(sc.Call), "dispatch:arg-short", x.p.Rel(dyn.Pos()), "second argument is the short count", "handler's shortCount argument is not the additional-information read")
 	x.cborCount(rc, tableFn, typ, sc, rd[2:], dyn)
+	x.cborDispatchReturn(rk, tableFn, dyn)
 	x.bigEndianOnly(rt, f.Pkg)
 
 	// rows
@@ -151,6 +153,10 @@ func (x *c16) cbor() *c16Format {
 		}
 		if k >= 2 && k <= 5 {
 			x.cborIndef(ri, k, h)
+		}
+		if k == 2 || k == 3 {
+			x.cborFormSelect(ri, k, h)
+			x.cborChunks(rk, k, h, tableFn)
 		}
 		hops := x.opsOfFn(h, newC16EvalFrom(he))
 		f.Rows = append(f.Rows, c16GoRow{Key: key, Attrs: map[string]string{"major_type": sym}, Class: c16CborClass[k], Produced: c16Fields(hops), Pos: rpos})
